@@ -95,8 +95,9 @@ impl LKHSearch {
                 *route_ctx = orig_route_ctx.deep_copy();
             });
 
-        // restore original unassigned jobs
+        // restore original unassigned jobs and the jobs which are still pending (repair reports them as unassigned)
         new_solution.solution.unassigned = orig_solution.solution.unassigned.clone();
+        new_solution.solution.required = orig_solution.solution.required.clone();
 
         // recalculate solution state if we do
         new_solution.restore();
